@@ -364,8 +364,9 @@ def oracle_history(files, cmds, obs, exited_at, snaps):
                 if refused:
                     return (k, '%r was refused although the current buffer %s is in its saved state' % (ctext, prev_cur), 'allowed', 'buffer modified')
         if kind == 'q' and any(dirty_before.values()):
-            if not dirty_before.get(cur, False):
-                return (k, ':q was refused but did not switch to a buffer that differs from its file', 'a modified buffer current', cur)
+            starred = {p for (_, _, p, f) in obs[k - 1]['listing'] if f == '*'}
+            if not dirty_before.get(cur, False) and cur not in starred:      # a buffer reported modified while equal to its file (e.g. :e! then u) may be the one
+                return (k, ':q was refused but did not switch to a buffer that differs from its file or is reported modified', 'a modified buffer current', cur)
         # text of the current buffer
         if cur in text and cur != prev_cur and kind != 'reload':
             if o['text'] != text[cur]:
